@@ -48,6 +48,10 @@ def documents(tier='quick'):
     docs.append(('only-comment', '; just a comment'))
     docs.append(('blank-lines', '\n\n2000-01-01 open Assets:Foo\n\n\n2000-01-02 close Assets:Foo\n\n'))
     docs.append(('indented-comments', '2000-01-11 * "n"\n    ; before\n    Assets:Foo  1 USD\n    ; between\n    Assets:Bar\n    ; after\n; dedented\n'))
+    docs.append(('zero-numbers', '2000-01-11 * "z"\n    Assets:Foo  0 USD @ 0\n    Assets:Bar  1 USD @@ 0.00\n    Assets:Baz  0 USD {0 # 5 GBP} @ (1 - 1)\n    Assets:Qux  2 USD {{0}}\n'))
+    docs.append(('bare-costs', '2000-01-11 * "c"\n    Assets:Foo  1 USD {{12.34}}\n    Assets:Bar  1 USD {12.34}\n    Assets:Baz  1 USD {GBP}\n    Assets:Qux  1 USD {2000-01-01, "l", *}\n'))
+    docs.append(('mixed-tags-links', '2000-01-11 * "p" "n" #aaa ^bbb #ccc ^ddd #eee\n    Assets:Foo  1 USD\n2000-01-12 note Assets:Foo "n" ^l0 #t0 ^l1 #t1\n'))
+    docs.append(('meta-comments-postings', '2000-01-11 * "m"\n    foo: 1\n    ; c1\n    Assets:Foo  1 USD\n    ; c2\n    bar: 2\n    Assets:Bar\n'))
     docs.append(('org-headings', '* Heading\n** Sub\n2000-01-01 open Assets:Foo\n'))
     return docs
 
